@@ -129,7 +129,7 @@ def modelWrite (fmt : String) (_w : WOpts) (_alphabet : Nat) (b : Bag) : Option 
 
 def headerClause (fmt : String) (o : POpts) (bs : List Byte) (length : Int) (rows : XRows) : String :=
   let n : Int := rows.length
-  let rowsOk (d : Int) : Bool := if normIgnore o.ignore == 0 then n == d else decide (n ≤ d)
+  let rowsOk (d : Int) : Bool := Gv.Spec.Fmt.rowsOk (normIgnore o.ignore != 0) n d
   match fmt with
   | "phylip" =>
     match declaredPhylip bs with
@@ -151,7 +151,7 @@ def alnClause (fmt : String) (o : POpts) (bs : List Byte) (a : Nat) (l : Int) (r
   if fa != 2 && a != fa then "alphabet-not-as-forced" else "ok"
 
 /-- blank up to the first NUL (NUL is goalign's in-band end-of-input marker, see the module docs) -/
-def blankToNul (bs : List Byte) : Bool := (bs.takeWhile (· != 0)).all Gv.Spec.Fmt.isBlank
+def blankToNul (bs : List Byte) : Bool := Gv.Spec.Fmt.blankToNul bs
 
 def c03Verdict (fmt : String) (o : POpts) (bs : List Byte) (impl : String) : String :=
   match decImpl impl with
